@@ -171,6 +171,10 @@ func session(r *hx.Run, rng *gen.Rng, id string, sub uint32, disableMouse bool, 
 			switch rng.Intn(4) {
 			case 0:
 				ccol, crow, cstyle = rng.Intn(12), rng.Intn(5), rng.Intn(7)
+				if rng.Chance(1, 3) {
+					cstyle = ucs // the application happens to use the user's own style (cursorLast.style == userCursorStyle)
+					r.Count("cursor-style-equals-user-style")
+				}
 				vx.ShowCursor(ccol, crow, vaxis.CursorStyle(cstyle))
 				cnv = true
 			case 1:
